@@ -287,8 +287,8 @@ func ruleTimeParams(r *Run) {
 			if !ok || neg.Op != token.SUB {
 				continue
 			}
-			for _, lv := range valueLeaves(neg.X) {
-				if cv, ok := constInt(lv); ok {
+			for _, cv := range constLeavesThroughHelpers(neg.X, nil, 0) {
+				if cv > sinceConst { // zero values returned beside an error are not the default
 					sinceConst = cv
 				}
 			}
@@ -428,58 +428,71 @@ func ruleTimeParams(r *Run) {
 				bad = true
 				od.Fail(r.pos(endCall.Pos()), "the default of --end is %s, not now", describe(endCall.Call.Args[1], 0))
 			}
-			if !strings.Contains(describe(endCall.Call.Args[0], 0), "endParam") || !strings.Contains(describe(startCall.Call.Args[0], 0), "startParam") {
+			// parseTimeRange(now, startParam, endParam, sinceParam): the end call reads endParam, the start call startParam
+			derivesFrom := func(v ssa.Value, prm *ssa.Parameter) bool {
+				v = unspill(v)
+				if c, ok := v.(*ssa.Call); ok && len(c.Call.Args) > 0 {
+					v = unspill(c.Call.Args[0])
+				}
+				return v == ssa.Value(prm)
+			}
+			if len(ptr.Params) != 4 || !derivesFrom(endCall.Call.Args[0], ptr.Params[2]) || !derivesFrom(startCall.Call.Args[0], ptr.Params[1]) {
 				bad = true
 				od.Fail(r.pos(endCall.Pos()), "the end/start parameters are parsed in the wrong roles (%s / %s)", describe(endCall.Call.Args[0], 0), describe(startCall.Call.Args[0], 0))
 			}
-			// start default: X.Add(-since), X = now when end.After(now), else end
+			// start default: X.Add(-since), X = now when end.After(now), else end - decided on paths
 			var endVal ssa.Value
 			for _, ref := range *endCall.Referrers() {
 				if e, ok := ref.(*ssa.Extract); ok && e.Index == 0 {
 					endVal = e
 				}
 			}
-			add, ok := startCall.Call.Args[1].(*ssa.Call)
-			if !ok || !callIs(add, "time", "(Time).Add") {
-				bad = true
-				od.Fail(r.pos(startCall.Pos()), "the default of --start is %s, not X.Add(-since)", describe(startCall.Call.Args[1], 0))
-			} else {
-				if u, ok := add.Call.Args[1].(*ssa.UnOp); !ok || u.Op != token.SUB {
-					bad = true
-					od.Fail(r.pos(add.Pos()), "the default of --start adds %s instead of subtracting since", describe(add.Call.Args[1], 0))
-				}
-				// after := end.After(now)
-				var after *ssa.Call
-				for _, c := range callsIn(ptr) {
-					if call, ok := c.(*ssa.Call); ok && callIs(call, "time", "(Time).After") {
-						a0, a1 := unspill(call.Call.Args[0]), unspill(call.Call.Args[1])
-						if a0 == endVal && a1 == ssa.Value(now) {
-							after = call
-						}
+			var after *ssa.Call
+			for _, c := range callsIn(ptr) {
+				if call, ok := c.(*ssa.Call); ok && callIs(call, "time", "(Time).After") {
+					a0, a1 := unspill(call.Call.Args[0]), unspill(call.Call.Args[1])
+					if a0 == endVal && a1 == ssa.Value(now) {
+						after = call
 					}
 				}
-				if after == nil {
-					bad = true
-					od.Fail(r.pos(add.Pos()), "the start default is not clamped to now: end is never compared with now (--end in the future would move --start into the future)")
-				} else {
-					for _, truth := range []bool{false, true} {
-						w := &feWalker{Fn: ptr, Assume: map[ssa.Value]constant.Value{after: constant.MakeBool(truth)}}
-						for _, e := range w.Run() {
-							for _, c := range e.State.calls {
-								if c.Call != ssa.CallInstruction(add) {
-									continue
-								}
-								base := unspill(c.Args[0].V)
-								want := endVal
-								if truth {
-									want = ssa.Value(now)
-								}
-								if base != want {
-									bad = true
-									od.Fail(r.pos(add.Pos()), "with end.After(now)=%v the start default is based on %s", truth, describe(base, 0))
-								}
+			}
+			if after == nil {
+				bad = true
+				od.Fail(r.pos(startCall.Pos()), "the start default is not clamped to now: end is never compared with now (--end in the future would move --start into the future)")
+			} else {
+				for _, truth := range []bool{false, true} {
+					w := &feWalker{Fn: ptr, Assume: map[ssa.Value]constant.Value{after: constant.MakeBool(truth)}}
+					seen := false
+					for _, e := range w.Run() {
+						for _, c := range e.State.calls {
+							if c.Call != ssa.CallInstruction(startCall) {
+								continue
+							}
+							seen = true
+							add, ok := unspill(c.Args[1].V).(*ssa.Call)
+							if !ok || !callIs(add, "time", "(Time).Add") {
+								bad = true
+								od.Fail(r.pos(startCall.Pos()), "with end.After(now)=%v the default of --start is %s, not X.Add(-since)", truth, describe(c.Args[1].V, 1))
+								continue
+							}
+							if u, ok := add.Call.Args[1].(*ssa.UnOp); !ok || u.Op != token.SUB {
+								bad = true
+								od.Fail(r.pos(add.Pos()), "the default of --start adds %s instead of subtracting since", describe(add.Call.Args[1], 0))
+							}
+							base := unspill(w.evalVal(e.State, add.Call.Args[0]).V)
+							want := endVal
+							if truth {
+								want = ssa.Value(now)
+							}
+							if base != want {
+								bad = true
+								od.Fail(r.pos(add.Pos()), "with end.After(now)=%v the start default is based on %s", truth, describe(base, 0))
 							}
 						}
+					}
+					if !seen {
+						bad = true
+						od.Fail(r.pos(startCall.Pos()), "no path parses --start with end.After(now)=%v", truth)
 					}
 				}
 			}
@@ -927,4 +940,51 @@ func ruleDefaultOnlyWhenAbsent(r *Run) {
 	if !bad {
 		o.OK("defaultStep only under param.Get() ok == false").At(r.pos(pst.Pos()))
 	}
+}
+
+// constLeavesThroughHelpers: the integer constants a value can take, looking through phis, local
+// cells and same-package helpers (a helper's parameter is replaced by the argument of the call that is
+// being expanded: since, err := sinceOrDefault(param, 6*time.Hour)).
+func constLeavesThroughHelpers(v ssa.Value, subst map[ssa.Value]ssa.Value, depth int) []int64 {
+	var out []int64
+	if depth > 3 {
+		return nil
+	}
+	for _, lv := range valueLeaves(v) {
+		lv = stripConv(lv)
+		if s, ok := subst[lv]; ok {
+			out = append(out, constLeavesThroughHelpers(s, nil, depth+1)...)
+			continue
+		}
+		if cv, ok := constInt(lv); ok {
+			out = append(out, cv)
+			continue
+		}
+		var call *ssa.Call
+		idx := 0
+		if c, i, ok := extractOf(lv); ok {
+			call, idx = c, i
+		} else if c, ok := lv.(*ssa.Call); ok {
+			call = c
+		}
+		if call == nil {
+			continue
+		}
+		h := staticCallee(call)
+		if h == nil || h.Blocks == nil || call.Parent() == nil || h.Pkg != call.Parent().Pkg {
+			continue
+		}
+		ns := map[ssa.Value]ssa.Value{}
+		for i, prm := range h.Params {
+			if i < len(call.Call.Args) {
+				ns[prm] = call.Call.Args[i]
+			}
+		}
+		for _, ret := range returnsOf(h) {
+			if idx < len(ret.Results) {
+				out = append(out, constLeavesThroughHelpers(ret.Results[idx], ns, depth+1)...)
+			}
+		}
+	}
+	return out
 }
